@@ -235,9 +235,44 @@ func runC11(w *World, r *Report) {
 				}
 			}
 		})
+		// test-and-mark is atomic
+		fli := ComputeLocks(w, func(fn2 *ssa.Function) bool { return fn2.Pkg != nil && fn2.Pkg.Pkg.Path() == modPath+"/cache" })
+		atomicOK := true
+		nAcc := 0
+		instrsOf(fn, func(in ssa.Instruction) {
+			c, ok := in.(ssa.CallInstruction)
+			if !ok || !strings.Contains(calleeName(c), "BigCache).") {
+				return
+			}
+			if _, isDefer := in.(*ssa.Defer); isDefer {
+				// the deferred Set runs at return: it is covered when the unlock is deferred EARLIER (runs later)
+				var unlockDefer *ssa.Defer
+				instrsOf(fn, func(x ssa.Instruction) {
+					if d, ok := x.(*ssa.Defer); ok {
+						if op, _, id, ok := lockOp(d); ok && op == "unlock" && id == "cache.Flashback.mux" {
+							unlockDefer = d
+						}
+					}
+				})
+				nAcc++
+				if unlockDefer == nil || !unlockDefer.Block().Dominates(in.Block()) || (unlockDefer.Block() == in.Block() && indexIn(in.Block(), unlockDefer) > indexIn(in.Block(), in)) {
+					atomicOK = false
+				}
+				if !fli.At(in).Has("cache.Flashback.mux", "W") {
+					atomicOK = false
+				}
+				return
+			}
+			nAcc++
+			if !fli.At(in).Has("cache.Flashback.mux", "W") {
+				atomicOK = false
+			}
+		})
+		r.check(atomicOK && nAcc >= 2, "seen-memory", "Flashback.HasHash/test-and-mark-atomic", w.Pos(fn.Pos()), "lookup and mark happen in one critical section (of several simultaneous deliveries of an item only one is 'not seen')", fmt.Sprintf("%d cache accesses, all inside one exclusive section: %v", nAcc, atomicOK))
 		r.check(marked, "seen-memory", "Flashback.HasHash/marks-on-every-path", w.Pos(fn.Pos()), "every non-error return leaves the hash marked as seen", "no dominating deferred Set of the hash")
 	}
 
+	r.rule("forward-to-every-uninformed-peer", "the forward loops range the whole peer table and send to every peer that is not in the verified set (no early return, no extra skip condition)", 4)
 	r.rule("skip-informed-peers", "the forward loops send to a peer only behind the absent edge of set[addr] for the ranged key of the peer table, under the peer-table lock", 4)
 	for _, name := range []string{"gossipVertex", "gossipTransaction"} {
 		f := w.fx(r, "gossip", "gossiper", name)
@@ -288,6 +323,57 @@ func runC11(w *World, r *Report) {
 			}
 		}
 		r.check(rpc == 1 && clientOK, "skip-informed-peers", name+"/rpc", lineOf(w, g), "the goroutine calls the matching Gossip RPC on the ranged peer's client", fmt.Sprintf("rpc calls=%d client-from-peer=%v", rpc, clientOK))
+		// completeness: every peer that is not in the set gets the item, and the loop always runs to its end
+		var next *ssa.Next
+		instrsOf(fn, func(in ssa.Instruction) {
+			if n, ok := in.(*ssa.Next); ok {
+				if rg, ok := n.Iter.(*ssa.Range); ok && strings.HasSuffix(pathOf(rg.X), ".nodes") {
+					next = n
+				}
+			}
+		})
+		if next == nil {
+			r.bad("forward-to-every-uninformed-peer", name+"/range", w.Pos(fn.Pos()), "range over the peer table", "not found")
+		} else {
+			var okv ssa.Value
+			for _, ref := range *next.Referrers() {
+				if e, ok := ref.(*ssa.Extract); ok && e.Index == 0 {
+					okv = e
+				}
+			}
+			present := lookupEdges(fn, setP, isRangeKey, true)
+			skipped := 0
+			if okv != nil {
+				for _, te := range trueEdges(fn, okv) {
+					walkFrom(nil, te.To(), edgeSet(present), func(x ssa.Instruction) bool {
+						if x == ssa.Instruction(g) {
+							return true
+						}
+						if x == ssa.Instruction(next) {
+							skipped++
+							return true
+						}
+						if _, ok := x.(*ssa.Return); ok {
+							skipped++
+							return true
+						}
+						return false
+					})
+				}
+			}
+			r.check(okv != nil && skipped == 0, "forward-to-every-uninformed-peer", name+"/every-peer", lineOf(w, next), "each ranged peer is either in the set (skipped) or is sent the item", fmt.Sprintf("%d ways to the next peer or out of the loop without sending", skipped))
+			early := 0
+			var exh []Edge
+			if okv != nil {
+				exh = falseEdges(fn, okv)
+			}
+			for _, ret := range returnsOf(fn) {
+				if !behind(ret, exh) {
+					early++
+				}
+			}
+			r.check(early == 0, "forward-to-every-uninformed-peer", name+"/no-early-return", w.Pos(fn.Pos()), "the function returns only after the peer table was ranged completely", fmt.Sprintf("%d returns reachable before the loop finished", early))
+		}
 		held := li.At(g)
 		r.check(held.Has("gossip.gossiper.mux", ""), "skip-informed-peers", name+"/under-lock", lineOf(w, g), "peer table is read under g.mux", "lockset "+held.String())
 	}
